@@ -116,6 +116,11 @@ def hostile_values(r, t):
     base = M.gen_value(r, t, in_range=True, maxlen=3)
     if isinstance(it, pydsdl.UnionType):
         out.append(("bad_tag", {"__raw_tag__": r.choice([len(it.fields), 255, len(it.fields) + 1])}))
+    # an invalid tag in a union nested somewhere inside the value (a field, an array element, an option of the selected member)
+    for _ in range(3):
+        v = _with_nested_bad_tag(r, t, M.gen_value(r, t, in_range=True, maxlen=3))
+        if v is not None:
+            out.append(("bad_tag", v))
     fields = it.fields if isinstance(it, pydsdl.UnionType) else it.fields_except_padding
     for f in fields:
         dt = f.data_type
@@ -125,6 +130,40 @@ def hostile_values(r, t):
             v[f.name] = [e] * (dt.capacity + r.choice([1, 1, 2]))
             out.append(("over_capacity", v))
     return out
+
+
+def _with_nested_bad_tag(r, t, v, top=True):
+    """A copy of value v of type t in which one union below the top level carries a tag that names no option; None if there is none."""
+    it = M.inner(t)
+    if isinstance(it, pydsdl.UnionType):
+        if not top and r.random() < 0.6:
+            return {"__raw_tag__": r.choice([len(it.fields), len(it.fields) + 1, 255])}
+        (k, x), = v.items()
+        f = next(f for f in it.fields if f.name == k)
+        sub = _bad_in(r, f.data_type, x)
+        return None if sub is None else {k: sub}
+    names = [f for f in it.fields_except_padding]
+    r.shuffle(names)
+    for f in names:
+        sub = _bad_in(r, f.data_type, v[f.name])
+        if sub is not None:
+            out = dict(v)
+            out[f.name] = sub
+            return out
+    return None
+
+
+def _bad_in(r, dt, x):
+    if isinstance(dt, pydsdl.CompositeType):
+        return _with_nested_bad_tag(r, dt, x, top=False)
+    if isinstance(dt, pydsdl.ArrayType) and isinstance(dt.element_type, pydsdl.CompositeType) and len(x):
+        i = r.choice([0, len(x) - 1])
+        sub = _with_nested_bad_tag(r, dt.element_type, x[i], top=False)
+        if sub is not None:
+            y = list(x)
+            y[i] = sub
+            return y
+    return None
 
 
 def des_inputs(r, t, n):
